@@ -14,8 +14,8 @@ PID = "C20"
 RULE = ("every canonical vertex sequence (start at the smallest grid point, second < last) over 4x4 grid points that forms a "
         "simple polygon, each in all cyclic shifts x both orientations x {identity, translation, x3, x0.5}; regular/star polygons "
         "of 3..80 vertices; every cell of every connected sub-tissue. non-trivial = non-zero area; classes = (n, |area|, perimeter)")
-BOUND = {"quick": "all simple grid polygons with 3..5 vertices (4x4 grid), all shifts and orientations; stars/regular 3..80; all sub-tissues of a 7-cell base",
-         "thorough": "all simple grid polygons with 3..6 vertices (4x4 grid); all sub-tissues of 11-cell base and square3x3"}
+BOUND = {"quick": "all simple grid polygons with 3..5 vertices (4x4 grid), all shifts and orientations; stars/regular 3..80, each under 8 translations / length factors (offsets to 3e4, factors 1e-7..1e5); all sub-tissues of a 7-cell base; remove_cell histories to depth 2 on 2 tissues, at either frame of a two-frame series",
+         "thorough": "all simple grid polygons with 3..6 vertices (4x4 grid); all sub-tissues of 11-cell base and square3x3; remove_cell histories to depth 3 (4 on square3x3)"}
 ASSUMPTIONS = ["zero-area vertex sequences are not polygons and are not generated", "y-up frame"]
 REQUIRED_TAGS = {"all": ["polygon_block", "star", "subtissue_holefree", "nonconvex", "history", "vertex_only_neighbours", "removed_1", "removed_2", "two_frames_at_0", "two_frames_at_1"]}
 
